@@ -1873,6 +1873,24 @@ where
                                 if ann.node == *remote {
                                     continue;
                                 }
+                                // Only send refs announcements if the remote is allowed to know
+                                // about the repository. Announcements for repositories we don't
+                                // have are let through, since we can't tell if they are private.
+                                if let AnnouncementMessage::Refs(RefsAnnouncement { rid, .. }) =
+                                    &ann.message
+                                {
+                                    let visible = match self.storage.get(*rid) {
+                                        Ok(Some(doc)) => doc.is_visible_to(&(*remote).into()),
+                                        Ok(None) => true,
+                                        Err(e) => {
+                                            error!(target: "service", "Error accessing repository {rid}: {e}");
+                                            false
+                                        }
+                                    };
+                                    if !visible {
+                                        continue;
+                                    }
+                                }
                                 // Only send messages if we're a relay, or it's our own messages.
                                 if relay || ann.node == local {
                                     self.outbox.write(peer, ann.into());
